@@ -2,7 +2,7 @@
    with a single candidate both fill it in the same minute. *)
 From Coq Require Import ZArith QArith Qcanon Lqa List Bool Lia.
 From JV Require Import Base.Num Base.QcTac Gen.candle Gen.backtest Spec.PathSpec Model.Match Model.FastMatch
-  Proofs.CandleProofs Proofs.MatchProofs Proofs.SortProofs Proofs.FollowProofs Proofs.RestingProofs.
+  Proofs.CandleProofs Proofs.MatchProofs Proofs.SortProofs Proofs.FollowProofs Proofs.RestingProofs Proofs.KernelEq.
 Import ListNotations.
 Local Open Scope Qc_scope.
 Import QcI.
@@ -16,9 +16,9 @@ Proof. unfold qmn, qmin. destruct (qltb_spec b a); destruct (qleb_spec a b); try
    normalising along a chain of already normalised candles (the fast simulator's path candles) or along the raw candles (the
    normal simulator's in-place normalisation) gives the same candles *)
 Lemma fix_jump_close_only (p p' k : cndl) : c_close p = c_close p' -> fix_jump QcNum p k = fix_jump QcNum p' k.
-Proof. intros E. unfold fix_jump. rewrite E. reflexivity. Qed.
+Proof. intros E. rewrite !gen_fix_jump_ref. unfold fix_jump_ref. rewrite E. reflexivity. Qed.
 Lemma fix_jump_keeps_close (p k : cndl) : c_close (fix_jump QcNum p k) = c_close k.
-Proof. unfold fix_jump. destruct (ltb QcNum (c_close p) (c_open k)); [reflexivity|]. destruct (ltb QcNum (c_open k) (c_close p)); reflexivity. Qed.
+Proof. rewrite gen_fix_jump_ref. unfold fix_jump_ref. destruct (qltb (c_close p) (c_open k)); [reflexivity|]. destruct (qltb (c_open k) (c_close p)); reflexivity. Qed.
 
 Fixpoint step_candles (prev : option cndl) (ks : list cndl) : list cndl :=
   match ks with [] => [] | k :: r => (match prev with Some p => fix_jump QcNum p k | None => k end) :: step_candles (Some k) r end.
